@@ -234,6 +234,10 @@ def run(ck):
         flow.equivalent(final[0][2], ('atom', ('truth', 'allow_dist')))[0]
     ck.ob('PROV-modes', mod.loc(mb), ok, 'the system-wide distance pass runs exactly when distance mode is on, over *all* atoms (no node restriction), with the collected block non-edges and the fudge factor',
           key='PROV-modes|distance')
+    # no distance bond at all when distance mode is off: *every* distance pass (the per-residue fall-back too) runs under allow_dist
+    gated = all(flow.implies(d[2], ('atom', ('truth', 'allow_dist')))[0] for d in dcalls)
+    ck.ob('PROV-modes', mod.loc(mb), bool(dcalls) and gated, 'every call of _bonds_from_distance ({}) is reached only when distance mode is on'.format(len(dcalls)),
+          key='PROV-modes|distance-gated')
     # every distance pass uses the requested fudge factor (the fallback pass per residue too), down to MakeBonds.fudge
     ok = bool(dcalls) and all(kwarg(d[0], 'fudge') is not None and u(kwarg(d[0], 'fudge')) == 'fudge' or
                               (len(d[0].args) >= 4 and u(d[0].args[3]) == 'fudge') for d in dcalls)
